@@ -6,7 +6,7 @@ import spec
 from spec import bits_of, hex_of
 
 OBLIGATION_MODULES = ["PyModeS.Properties.C19"]
-TIE_MODULES = ['PyModeS.Tie.Rtl', 'PyModeS.Tie.RtlBuffer', 'PyModeS.Tie.Crc']
+TIE_MODULES = ['PyModeS.Tie.Rtl', 'PyModeS.Tie.RtlBuffer', 'PyModeS.Tie.Crc', 'PyModeS.Tie.C19Gen']
 MAIN_THEOREM = "PyModeS.C19.never_bad_df17 / clean_signal_recovered_partial"
 RULE = ("synthetic PPM sample buffers on a dyadic amplitude grid: frame contents (DF17 good/bad parity, DF20/21, DF4/5/11) x start offsets "
         "(both parities) x amplitudes 0.3..1.4 x noise (constant / uniform, ratios 0..0.31 of the pulse amplitude) x 1-4 frames x spacings; "
